@@ -12,6 +12,7 @@
   which a multi-key get answers its keys is not part of the contract, L1 hits come first).
 -/
 import Rend.Proofs.OrcaSeq
+import Rend.Proofs.LockedRefine
 
 namespace Rend.Props.C01
 open Rend
@@ -47,6 +48,25 @@ theorem C01_histories (acts : List Act) (now : Nat) (tk : List Bytes) (h : ActsT
 theorem C01_histories_from (acts : List Act) (now : Nat) (w : World) (tk : List Bytes) (h : ActsTwoTier acts)
     (hinv : CacheInv now w) : AllAgree (runActs now w tk acts) (specActs now w.l2 acts) :=
   (history_refines acts now w tk h hinv).1
+
+/-- **With the locking wrapper** (any number of lock stripes, both ports sharing the lock set, the
+    wrapper instantiated from the regenerated facts): every history is answered — lock events
+    aside — as the single map answers it; a multi-key get, which the wrapper performs as one
+    locked single-key get per key with the terminators of all but the last held back, yields one
+    answer per key and one terminator. -/
+theorem C01_histories_locked (bits : Nat) (acts : List Act) (now : Nat) (tk : List Bytes) (h : ActsTwoTier acts)
+    (hne : ActsGetsNonEmpty acts) :
+    AllAgree (runActsL bits now {} tk acts) (specActs now Store.empty acts) :=
+  (history_refines_locked bits acts now {} tk h hne (by intro k a ha; simp [Store.look, Store.empty] at ha)).1
+
+/-- One step under the wrapper, any state satisfying the invariant. -/
+theorem C01_locked_step (now bits : Nat) (w : World) (tk : List Bytes) (p : Port) (c : Cmd) (hc : TwoTier c)
+    (hk : GetsNonEmpty c) (hinv : CacheInv now w) :
+    ((Locked.step bits (portStep p) c).eval now w tk).2.2.1.l2 = (Spec.step now w.l2 c).1 ∧
+    CacheInv now ((Locked.step bits (portStep p) c).eval now w tk).2.2.1 ∧
+    Agrees c (Spec.step now w.l2 c).2 ((Locked.step bits (portStep p) c).eval now w tk).1
+      (respsOnly ((Locked.step bits (portStep p) c).eval now w tk).2.1) :=
+  locked_step_refines now bits w tk p c hc hk hinv
 
 /-- L1-only: every history, from any state. -/
 theorem C01_histories_l1only (acts : List (Nat × Cmd)) (now : Nat) (w : World) (tk : List Bytes) :
